@@ -3,6 +3,8 @@ from __future__ import annotations
 
 import itertools
 
+import warnings
+
 import numpy as np
 
 from .. import gen, geom, models
@@ -145,6 +147,9 @@ def build(rng, states_true, inner_true, f=0.5):
     return traj, st, R, f, kind, rot
 
 
+_RDF_TURN = [0]
+
+
 def check_transitions(tr, ctx, what, allow_static_raise=True):
     """The deciding oracle: events / fills of a Transitions object vs. the loop model."""
     states = np.asarray(tr.states)
@@ -229,6 +234,21 @@ def check_transitions(tr, ctx, what, allow_static_raise=True):
         ok = ctx.check(False, f'{what}: states_next() is not the next site (atom {a})', {'states': states[:, a], 'got': sn[:, a] if sn.shape == mn.shape else sn.shape, 'want': mn[:, a]}) and ok
     else:
         ctx.decided()
+    # the views are also what the per-state RDF analysis reads: running that analysis on the object (every 8th
+    # object examined) leaves them what they were
+    _RDF_TURN[0] += 1
+    if ok and _RDF_TURN[0] % 8 == 0 and len(states) <= 80:
+        try:
+            with warnings.catch_warnings():
+                warnings.simplefilter('ignore')
+                tr.radial_distribution(floating_specie='Li', max_dist=2.0, resolution=0.5)
+            ran = True
+        except Exception:  # noqa: BLE001  (objects assembled from bare arrays cannot be analysed; not this check's subject)
+            ran = False
+        if ran:
+            sp2, sn2 = np.asarray(tr.states_prev()), np.asarray(tr.states_next())
+            ok = ctx.check(np.array_equal(sp2, mp) and np.array_equal(sn2, mn) and np.array_equal(np.asarray(tr.states), states), f'{what}: after Transitions.radial_distribution() ran on the object, states_prev() / states_next() / states are no longer the previous / next / current sites of the history', {'states': states[:, :3], 'prev_now': sp2[:, :3], 'next_now': sn2[:, :3]}) and ok
+            ctx.count('views_rechecked_after_an_rdf_analysis_of_the_object')
     return ok
 
 
